@@ -89,6 +89,16 @@ type PredDef struct {
 	Text   string
 }
 
+// RecFn is a recursive specification function: recfn name(a Sort, b Sort) Sort := body
+type RecFn struct {
+	Name   string
+	Params []string
+	Sorts  []Sort
+	Ret    Sort
+	Body   SExpr
+	Text   string
+}
+
 type UFn struct {
 	Name string
 	Args []Sort
@@ -103,11 +113,13 @@ type SpecSet struct {
 	Axioms []Clause
 	HFns   map[string]*UFn
 	EvDecl map[string][]Sort
+	RecFns map[string]*RecFn
+	RecOrder []string
 	Files  []string
 }
 
 func NewSpecSet() *SpecSet {
-	return &SpecSet{Funcs: map[string]*FuncSpec{}, Preds: map[string]*PredDef{}, UFns: map[string]*UFn{}, Consts: map[string]*big.Int{}, HFns: map[string]*UFn{}, EvDecl: map[string][]Sort{}}
+	return &SpecSet{Funcs: map[string]*FuncSpec{}, Preds: map[string]*PredDef{}, UFns: map[string]*UFn{}, Consts: map[string]*big.Int{}, HFns: map[string]*UFn{}, EvDecl: map[string][]Sort{}, RecFns: map[string]*RecFn{}}
 }
 
 func sortByName(s string) (Sort, error) {
@@ -126,6 +138,14 @@ func sortByName(s string) (Sort, error) {
 		return SArrB, nil
 	case "ArrArr":
 		return ArrSort(SInt, SArrI), nil
+	case "SetArr": // set of [N]byte values (e.g. addresses)
+		return ArrSort(SArrI, SBool), nil
+	case "SetStr":
+		return ArrSort(SStr, SBool), nil
+	case "SetInt":
+		return ArrSort(SInt, SBool), nil
+	case "MapArrInt":
+		return ArrSort(SArrI, SInt), nil
 	}
 	if strings.HasPrefix(s, "(Array ") {
 		return Sort(s), nil
@@ -147,7 +167,7 @@ func (ss *SpecSet) LoadSpecFile(path, pkgPath string) error {
 	var raws []rawClause
 	keywords := map[string]bool{"func": true, "requires": true, "ensures": true, "invariant": true, "assigns": true,
 		"trusted": true, "maypanic": true, "pure": true, "pred": true, "ufn": true, "const": true, "axiom": true,
-		"decreases": true, "opt": true, "hfn": true, "event": true, "evdecl": true, "lemma": true, "nopanic": true, "end": true}
+		"decreases": true, "opt": true, "hfn": true, "event": true, "evdecl": true, "recfn": true, "lemma": true, "nopanic": true, "end": true}
 	for i, line := range strings.Split(string(data), "\n") {
 		t := strings.TrimSpace(line)
 		if pkgPath != "" || strings.HasSuffix(path, ".go") {
@@ -303,6 +323,42 @@ func (ss *SpecSet) LoadSpecFile(path, pkgPath string) error {
 			}
 			u.Ret = s
 			ss.UFns[u.Name] = u
+		case "recfn":
+			j := strings.Index(r.text, ":=")
+			if j < 0 {
+				return fail(fmt.Errorf("recfn without :="))
+			}
+			head := strings.TrimSpace(r.text[:j])
+			op := strings.Index(head, "(")
+			cp := strings.LastIndex(head, ")")
+			if op < 0 || cp < op {
+				return fail(fmt.Errorf("bad recfn head"))
+			}
+			rf := &RecFn{Name: strings.TrimSpace(head[:op]), Text: r.text}
+			for _, a := range strings.Split(head[op+1:cp], ",") {
+				f := strings.Fields(strings.TrimSpace(a))
+				if len(f) != 2 {
+					return fail(fmt.Errorf("recfn parameter must be 'name Sort'"))
+				}
+				so, err := sortByName(f[1])
+				if err != nil {
+					return fail(err)
+				}
+				rf.Params = append(rf.Params, f[0])
+				rf.Sorts = append(rf.Sorts, so)
+			}
+			so, err := sortByName(strings.TrimSpace(head[cp+1:]))
+			if err != nil {
+				return fail(err)
+			}
+			rf.Ret = so
+			e, err := ParseSpecExpr(r.text[j+2:])
+			if err != nil {
+				return fail(err)
+			}
+			rf.Body = e
+			ss.RecFns[rf.Name] = rf
+			ss.RecOrder = append(ss.RecOrder, rf.Name)
 		case "evdecl":
 			// evdecl name(Sort, Sort, ...): argument sorts of a ghost event trace
 			op := strings.Index(r.text, "(")
